@@ -58,8 +58,8 @@ type Actor struct {
 	// Exif reader does exactly this). bufio.Reader answers ErrNegativeCount; whatever view the
 	// library hands out must not move, and must not change what it believes to be left.
 	NegDiscard int
-	Inv     []*Invocation
-	MaxRead int // safety cap per invocation
+	Inv        []*Invocation
+	MaxRead    int // safety cap per invocation
 	// Probe, when set, is called at entry ("enter") and exit ("exit") of every invocation with
 	// the invocation index (harness-side observation of the stream position; not an event).
 	Probe func(phase string, inv int)
